@@ -114,9 +114,13 @@ def cases(shard, rnd):
                 [x for x in hostile.hostile_tables(rnd)
                  if isinstance(x, dict)] + [x for x in pool
                                             if x is not None and x != '']
-            for v in vs:
+            for k_, v in enumerate(vs):
+                # beside other properties, and ALONE (a header whose only
+                # property is falsy - priority 0, empty headers - is still a
+                # header with that property)
                 yield {'t': 'prop', 'name': n, 'v': v,
-                       'base': gf.props_for_mask(rnd, rnd.getrandbits(13))}
+                       'base': gf.props_for_mask(rnd, rnd.getrandbits(13))
+                       if k_ % 2 else {}}
         for _ in range(shard['n_random']):
             n, t = rnd.choice(refspec.PROPERTIES)
             v = hostile.random_hostile(rnd)
